@@ -632,8 +632,9 @@ class PoserWorld:
     def construct(self, cfg):
         specs, k = cfg
         try:
+            # k < 0: |k| names, all equal (the right NUMBER of names; whether they differ is not part of the validation)
             lib()["PoSER"](ref_ind=[[0]] * len(specs), single_setups=[self.setup(s) for s in specs],
-                           names=[f"n{i}" for i in range(k)])
+                           names=[f"n{i}" for i in range(k)] if k >= 0 else ["g"] * (-k))
             return "ok"
         except Exception as e:  # noqa: BLE001
             return type(e).__name__
@@ -654,6 +655,7 @@ def poser_configs(ctx, scale=1):
     cfgs = [((), k) for k in range(4)]
     cfgs += [((a,), k) for a in S3 for k in range(4)]
     cfgs += [((a, b), k) for a in S3 for b in S3 for k in range(4)]
+    cfgs += [((a, b), k) for a in S3 for b in S3 for k in (-2, -3) if len(a) >= 2 or len(b) >= 2]  # repeated names
     done = setup_specs(POSER_CLASSES, states=(2,))
     cfgs += [((a, b, c), k) for a in done for b in done for c in done for k in range(4)]
     for _ in range(ctx.n(3000, 20000) * scale):
@@ -681,13 +683,14 @@ def poser_configs(ctx, scale=1):
 
 def cfg_json(cfg):
     specs, k = cfg
-    return dict(setups=[[dict(c=c, r=st >= 1, f=st >= 2) for c, st in s] for s in specs], names=k)
+    return dict(setups=[[dict(c=c, r=st >= 1, f=st >= 2) for c, st in s] for s in specs], names=abs(k))
 
 
 def poser_expected(cfg):
     """the property statement: accepted iff >= 2 setups, identical type lists in identical order, all run and with
     modes extracted, one name per algorithm (a setup without algorithms has nothing run: rejected)"""
     specs, k = cfg
+    k = abs(k)
     if len(specs) < 2:
         return False, "fewer-than-two-setups"
     if any(len(s) == 0 for s in specs):
